@@ -385,6 +385,10 @@ def judge_syntax(s, kind, msg, cfg, out, sql, col):
         src = spans[k][1]
         ttag = {t.replace('-on-line', '-error-token') for t in tags_for(spans, [k])}
         marked = last[ccol:ccol + clen]
+        if '\n' in src:
+            # a token that spans lines cannot be marked by one caret line: its part on the shown (first) line is what
+            # the carets can cover (the property does not say more)
+            src = src.split('\n')[0]
         if marked != src or clen != len(src):
             bad('caret-span', 'error_location', sorted(ttag), '%s: carets mark %r (col %d len %d), offending '
                 'token %d is %r' % (where, marked, ccol, clen, k, src))
